@@ -18,7 +18,7 @@ LEVEL = "fault_enumeration"
 RULE = (
     "PG programs with provide/inject, hooks and tick points ({% vf_ticktag %}, {{ x|vf_tick }}) in templates, fill bodies, slot defaults and provide bodies; "
     "for each program and mode: fault-free run counts N user-code invocations, then EVERY invocation index i in 1..N is made to raise (all i; in the quick tier programs with N > 60 get 60 indices: the first 30 and an even spread) one of "
-    "7 exception shapes (string arg, multi-line message, non-string arg, no args, OSError(errno,msg), custom two-argument exception, TemplateSyntaxError). "
+    "8 exception shapes (string arg, multi-line message, non-string arg, no args, OSError(errno,msg), custom two-argument exception, TemplateSyntaxError, custom TypeError subclass with a payload attribute). "
     "Oracle per faulted run: the exception that escapes IS the injected object and still carries its original message; all six per-render registries are empty; "
     "a sentinel object in the page context is unreachable after dropping the exception and gc.collect(); a follow-up fault-free render in the same process "
     "equals the baseline. Per program additionally: 25 repetitions of one failing and of the fault-free render grow neither the registries nor the gc object count; "
@@ -32,6 +32,14 @@ ASSUMPTIONS = [
 ]
 BOUNDS = {"quick": {"programs": 160, "sequences": 64}, "thorough": {"programs": 3000, "sequences": 800}}
 CFG = {"provide": True, "inject": True, "ticks": True, "hooks": True, "errors": False, "isfilled": False, "max_nodes": 3, "max_comps": 3, "provide_weight": 2, "inject_pct": 60}
+
+
+class CustomTypeError(TypeError):
+    """A user exception that derives from a built-in one the library itself raises / converts."""
+
+    def __init__(self, msg, payload):
+        super().__init__(msg)
+        self.payload = payload
 
 
 class Custom2(Exception):
@@ -55,6 +63,8 @@ def make_exc(kind, i):
         return FileNotFoundError(2, "No such file or directory: f%d" % i)
     if kind == 5:
         return Custom2("c-%d" % i, {"k": i})
+    if kind == 7:
+        return CustomTypeError("cte-%d" % i, {"k": i})
     return TemplateSyntaxError("tse-%d" % i)
 
 
@@ -247,7 +257,7 @@ def check_program(case, col=None):
         for i in range(1, n + 1):
             if only and i not in only:
                 continue
-            k = (case.get("exc_kind", 0) + i) % 7
+            k = (case.get("exc_kind", 0) + i) % 8
             f, label = faulted_run(prog, mode, i, k, baseline, expect_chain=chains.get(i) if k in ORIG else None)
             if col is not None and i in chains and k in ORIG:
                 col.count("component_path_judged")
@@ -329,7 +339,7 @@ def check_sequence(case, col=None):
                 break
         else:
             i = 1 + int(frac * (n - 1) / 100.0)
-            f, _label = faulted_run(prog, mode, i, (si + i) % 7, None, keep_state=True)
+            f, _label = faulted_run(prog, mode, i, (si + i) % 8, None, keep_state=True)
             n_fail += 1
             if f:
                 fails.extend([(m.replace("[%s]" % mode, "[%s] step %d:" % (mode, si)), b.replace("c06-", "c06-seq-")) for m, b in f])
@@ -363,7 +373,7 @@ def check_pyslots(case, col=None):
     mode = case["mode"]
     fails = []
     for i in range(1, 6):
-        for kind in range(7):
+        for kind in range(8):
             env.reset()
             exc = make_exc(kind, i)
             state = {"n": 0}
@@ -546,7 +556,7 @@ def run_shard(spec):
             col.fail(case, m, b)
         return col
     if spec["kind"] == "main":
-        strat = st.builds(lambda p, k: {"kind": "main", "program": p, "exc_kind": k, "cap": spec.get("cap")}, pgstrat.programs(CFG), st.integers(0, 6))
+        strat = st.builds(lambda p, k: {"kind": "main", "program": p, "exc_kind": k, "cap": spec.get("cap")}, pgstrat.programs(CFG), st.integers(0, 7))
         return hyp_search(strat, lambda case: check_program(case, col), col, max_examples=spec["n"], seed=spec["seed"], shrink=False, attribute=attribute, post_min=_reduce)
     strat = st.builds(
         lambda ps, steps, m: {"kind": "seq", "programs": ps, "steps": [[pi % len(ps), fr] for pi, fr in steps], "mode": m},
